@@ -765,7 +765,8 @@ package calendar
 //@ sweep Tao: self.lunar != nil [C08]
 //@ sweep Foto: self.lunar != nil [C08]
 //@ sweep LunarYear: 1 <= self.year && self.year <= 9998 && self.year != 16 && self.year != 19 [C08]
-//@ sweep Lunar LunarMonth LunarTime EightChar NineStar JieQi Fu ShuJiu TaoFestival FotoFestival [C08]
+//@ sweep LunarMonth: self.firstJulianDay == float64(rfloor(self.firstJulianDay)) && 1721424.0 <= self.firstJulianDay && self.firstJulianDay <= 5373118.0 [C08]
+//@ sweep Lunar LunarTime EightChar NineStar JieQi Fu ShuJiu TaoFestival FotoFestival [C08]
 
 //@ # the Yang Gong taboo day predicate is total (it walks the day's festival list)
 //@ ghost func fotoYangGongTotal(f *Foto) [C08 C17]
